@@ -1,0 +1,51 @@
+//go:build verif
+
+package hermes
+
+import (
+	"sort"
+	"strings"
+)
+
+// Hook of the verification harness (property C16, automatic fertilisation): lets a kernel-level call of
+// Nitro keep its management events in memory. Adds no behaviour to the model code.
+
+// VerifEventSink collects what WriteManagementEvent writes.
+type VerifEventSink struct {
+	b strings.Builder
+}
+
+func (s *VerifEventSink) Write(x string) (int, error)      { return s.b.WriteString(x) }
+func (s *VerifEventSink) WriteBytes(x []byte) (int, error) { return s.b.Write(x) }
+func (s *VerifEventSink) WriteRune(x rune) (int, error)    { return s.b.WriteRune(x) }
+func (s *VerifEventSink) WriteError(err error) (int, error) {
+	return s.b.WriteString(err.Error())
+}
+func (s *VerifEventSink) Close() {}
+
+// String returns the event lines written so far.
+func (s *VerifEventSink) String() string { return s.b.String() }
+
+// Reset forgets the event lines written so far.
+func (s *VerifEventSink) Reset() { s.b.Reset() }
+
+// VerifCaptureFertilizationEvents gives g a management output configuration with the fertilisation events
+// enabled (attributes Fertilizer '%s', Ndirect '%v', NH4 '%v', separator ';') that writes into the sink.
+func VerifCaptureFertilizationEvents(g *GlobalVarsMain) *VerifEventSink {
+	sink := &VerifEventSink{}
+	config := NewManagentConfig()
+	config.SeperatorRune = ';'
+	config.EventFormats[Fertilization].Enabled = true
+	config.EventFormats[Fertilization].AdditionalFields = map[string]string{"Fertilizer": "%s", "Ndirect": "%v", "NH4": "%v"}
+	for _, eventConf := range config.EventFormats {
+		sortedFields := make([]string, 0, len(eventConf.AdditionalFields))
+		for k := range eventConf.AdditionalFields {
+			sortedFields = append(sortedFields, k)
+		}
+		sort.Strings(sortedFields)
+		eventConf.sorted = sortedFields
+	}
+	config.file = sink
+	g.managementConfig = config
+	return sink
+}
